@@ -137,6 +137,17 @@ def sweep_docs(fmt, quick):
             for t in (b"0." + b"123456789" * 30, b"-1" + b"0" * 300, b"12345678901234567890" * 20, b"1e" + b"0" * 300 + b"1"):
                 t = t[:L] if not t.startswith(b"1e") else t[: L - 1] + b"1"
                 docs += [list(b"[" + t + b"]"), list(t + b" "), list(b'{"n":' + t + b',"m":' + t[: L // 2] + b"}")]
+        # plain decimal literals (no exponent) with few significant digits far behind the point: correctly rounded
+        # only by a full decimal conversion (a short-cut mant / 10^frac is exact for frac <= 22 alone)
+        for k in (list(range(14, 34)) + [50, 100, 200, 307, 308, 322, 323, 324, 330]):
+            for sig in ("1", "5", "25", "7", "123", "9007199254740993", "123456789012345"):
+                if quick and (k + len(sig)) % 3 and k not in (22, 23, 323):
+                    continue
+                for sign in ("", "-"):
+                    t = (sign + "0." + "0" * k + sig).encode()
+                    docs.append(list(b"[" + t + b"]"))
+                    if sign == "":
+                        docs.append(list(b'{"n":' + (sig[:1] + "." + "0" * k + sig).encode() + b"}"))
     if fmt == "ubjson":
         # runs of no-ops wherever a value or member may start (a no-op is not an element)
         for k in (1, 2, 3):
@@ -312,6 +323,24 @@ def conformance_cases(ctx, prop, fmt, rows):
                 e = ("parse", "reader", "decbytes", "write", "decreader", "parsestr")[(n // k3 + cut) % 6]
                 kw = sched_variants(ctx, d[:cut], e, rnd)
                 cases.append(case(prop, "parse", fmt, doc=d[:cut], entry=e, origin="prefix of a valid document", **kw))
+    # sequences of two or three valid documents in ONE input (JSON: separated by a line feed): every item is reported,
+    # whether the items share a buffer, or a Write ends one item and carries the head of the next
+    k4 = 5 if ctx.quick else 20
+    sepb = [10] if fmt == "json" else []
+    for n, r in enumerate(good):
+        if n % k4 != 2:
+            continue
+        a, b = r["doc"], good[(7 * n + 1) % len(good)]["doc"]
+        seq = a + sepb + b + ((sepb + good[(3 * n + 2) % len(good)]["doc"]) if n % 3 == 0 else [])
+        if len(seq) > 40:
+            continue
+        cases.append(case(prop, "parse", fmt, doc=seq, origin="sequence of valid documents in one input"))
+        e = ("write", "reader", "decbytes", "decreader")[(n // k4) % 4]
+        kw = sched_variants(ctx, seq, e, rnd)
+        if e in ("write", "reader") and len(b) >= 2:
+            # the first piece ends one byte into the second item
+            kw["cuts"] = [len(a) + len(sepb) + 1]
+        cases.append(case(prop, "parse", fmt, doc=seq, entry=e, origin="sequence of valid documents via " + e, **kw))
     for n, doc in enumerate(deep_docs(fmt)):
         cases.append(case(prop, "parse", fmt, doc=doc, origin="deep nesting"))
         e = other[n % 4]
@@ -382,7 +411,7 @@ def c04(ctx):
     rows = gen_json(ctx, "lang")
     cases = conformance_cases(ctx, "C04", "json", rows)
     # a long-lived parser fed one text per Parse call, the previous one malformed: json.Parser.Parse re-initialises the parser
-    probes = [list(t) for t in (b'{"k":"v"}', b'[{"id":1}]', b'"s"', b'12', b'[1.5,"x",null]', b'{"a":{"b":[true]}}', b'{"\\n":2}', b'[]', b'-0.5e1 ',
+    probes = [list(t) for t in (b'{"k":"v"}', b'[{"id":1}]', b'"s"', b'12', b'[1.5,"x",null]', b'{"a":{"b":[true]}}', b'{"\\n":2}', b'[]', b'-0.5e1 ', b'{"":1}', b'{"":""}', b'["",""]',
                                 b'{"' + b"k" * 70 + b'":"' + b"v" * 70 + b'"}')]
     bad = set()
     for t in (b'{"msg": "hello wor', b'[1, 2, 3.', b'{"key\\u00e9": [tru', b'["a\\', b'{"a":1,"bcd', b'[-', b'{"a" 1}', b'[1 2]', b'nul', b'"\\ud83d', b'[1e', b'{"' + b"q" * 80,
@@ -449,6 +478,10 @@ def stream_cases(ctx, prop, kind, shapes, fmts=("json", "ubjson", "cborl"), swee
                     prev = REUSE_PREV[fmt]
                     cases.append(case(prop, kind, fmt, stream=st, opts=dict(opts[0]), sub=dict(reuse=[prev[(n // 4) % len(prev)], prev[(n // 4 + 3) % len(prev)]]),
                                       origin="GenEvents, read by a parser that has read other documents"))
+                if kind == "roundtrip" and n % 4 == 2:
+                    # the bytes reach the parser in two or three Write calls (cut position varies with the case)
+                    cases.append(case(prop, kind, fmt, stream=st, opts=dict(opts[0]), sub=dict(split=rnd.randrange(1, 1 << 20)),
+                                      origin="GenEvents, read in pieces through Write"))
                 n += 1
     return number(cases)
 
@@ -502,6 +535,14 @@ def huge_length_docs(fmt):
                 docs.append(list(pre) + [ord("L")] + list(v.to_bytes(8, "big")) + [1, 1])
             docs.append(list(pre) + [ord("l"), 0x7f, 0xff, 0xff, 0xff, 1, 1])
             docs.append(list(pre) + [ord("I"), 0x7f, 0xff, 1])
+        # typed containers of multi-byte element types whose count times the element width leaves 63 bits
+        # (2^63/width and its neighbours; a product that wraps to a negative, to zero or to a small number)
+        for ty in (b"I", b"l", b"d", b"L", b"D", b"U", b"C"):
+            for v in (2 ** 60, 2 ** 61, 2 ** 61 + 1, 2 ** 62, 2 ** 62 + 1, 2 ** 63 - 1, 2 ** 63 // 3 + 1):
+                for pre in (b"[$", b"{$"):
+                    tail = [0, 1, 0, 2, 0, 0, 0, 3] if pre == b"[$" else [ord("i"), 1, ord("a"), 0, 1, 0, 2, 0, 0, 0, 3]
+                    docs.append(list(pre + ty + b"#L") + list(v.to_bytes(8, "big")) + tail)
+                    docs.append([ord("[")] + list(pre + ty + b"#L") + list(v.to_bytes(8, "big")))
     else:
         docs.append(list(b"[" * 3000))
         docs.append(list(b"[" * 3000 + b"]" * 3000))
